@@ -17,7 +17,7 @@ impl Prop for C17 {
         true
     }
     fn rule(&self) -> String {
-        "cases = 1-3 prepared statements with 1-6 parameters and a history of 1-12 rounds; a round sends 0-5 (one round in ten: 20-120, interleaved over the targets) COM_STMT_SEND_LONG_DATA chunks (sizes 0, 1, 300, 70000, random; one >= 2^24-byte chunk in the enumerated cases) addressed to generated (statement, parameter) targets, possibly for several statements at once, (occasionally followed by a re-prepare that hands out the same id and parameter count again, which must discard what is pending), then executes one statement whose long-data parameters are omitted inline (as clients do) while the others are sent inline incl. NULLs. One enumerated history executes a single statement more than 65536 (thorough: 131072) times - a streamed value first, inline values afterwards - so that 'delivered to exactly one execution' is also checked at distances where narrow counters wrap; another streams one parameter in more than 65536 (thorough: 200000) one-byte and empty chunks. One execution in five is answered with an error (deadlock, lock wait timeout, unknown statement handler, ...): its long data was delivered to it and must not show up again. Oracle: reference model pending[stmt][param]; at an execution the addressed parameters arrive as bytes equal to the in-order concatenation, the others exactly as encoded; afterwards the statement's pending data is empty (the next execution sees its inline value); other statements' pending data is untouched. Non-trivial = >= 2 chunks for one target, or long data pending for another statement across an execution, or an execution without long data after one with.".into()
+        "cases = 1-3 prepared statements with 1-6 parameters and a history of 1-12 rounds; a round sends 0-5 (one round in ten: 20-120, interleaved over the targets) COM_STMT_SEND_LONG_DATA chunks (sizes 0, 1, 300, 70000, random; one >= 2^24-byte chunk in the enumerated cases) addressed to generated (statement, parameter) targets, possibly for several statements at once, (occasionally followed by a re-prepare that hands out the same id and parameter count again - half of the time after the client closed the statement with its data still pending - which must discard what is pending), then executes one statement whose long-data parameters are omitted inline (as clients do) while the others are sent inline incl. NULLs. One enumerated history executes a single statement more than 65536 (thorough: 131072) times - a streamed value first, inline values afterwards - so that 'delivered to exactly one execution' is also checked at distances where narrow counters wrap; another streams one parameter in more than 65536 (thorough: 200000) one-byte and empty chunks. One execution in five is answered with an error (deadlock, lock wait timeout, unknown statement handler, ...): its long data was delivered to it and must not show up again. Oracle: reference model pending[stmt][param]; at an execution the addressed parameters arrive as bytes equal to the in-order concatenation, the others exactly as encoded; afterwards the statement's pending data is empty (the next execution sees its inline value); other statements' pending data is untouched. Non-trivial = >= 2 chunks for one target, or long data pending for another statement across an execution, or an execution without long data after one with.".into()
     }
     fn assumptions(&self) -> Vec<String> {
         vec!["long data is only addressed to non-NULL parameters of string type, as client libraries do".into()]
@@ -67,7 +67,7 @@ impl Prop for C17 {
                 pending[s][p] = true;
                 if g.chance(1, 12) {
                     // the shim hands out the same id again: pending long data must not survive
-                    ops.push(Op::Reprepare { stmt: s });
+                    ops.push(Op::Reprepare { stmt: s, close_first: g.coin() });
                     for x in pending[s].iter_mut() {
                         *x = false;
                     }
@@ -209,10 +209,10 @@ impl Prop for C17 {
                     chunks.retain(|(s, _), _| s != stmt);
                 }
                 Op::Ping => {}
-                Op::Reprepare { stmt } => {
+                Op::Reprepare { stmt, close_first } => {
                     if chunks.keys().any(|(s, _)| s == stmt) {
                         ex.nontrivial = true;
-                        ex.class("re-prepare-with-pending-long-data");
+                        ex.class(if *close_first { "close-with-pending-long-data-then-prepare" } else { "re-prepare-with-pending-long-data" });
                     }
                     chunks.retain(|(s, _), _| s != stmt);
                 }
